@@ -9,6 +9,9 @@ CONSTANT SampleMod = 5
 CONSTANT SamplePick = 0
 CONSTANT ValMod = 4
 CONSTANT ValPick = 0
+CONSTANT MaxApps = 3
+CONSTANT HistMod = 16
+CONSTANT HistPick = 0
 SPECIFICATION Spec
 INVARIANT GradIsVJP
 INVARIANT Linear
@@ -18,7 +21,14 @@ INVARIANT DiagIsDiagonal
 INVARIANT StackRows
 INVARIANT AggIsWJ
 INVARIANT ValuesLinear
+INVARIANT ObjectIsFunction
+INVARIANT HistChains
+INVARIANT HistBatchesDiffer
+INVARIANT HistIndependent
+INVARIANT HistInputsDiffer
 INVARIANT ExportCall
 INVARIANT ExportVal
+INVARIANT ExportHist
+INVARIANT ExportHistVal
 INVARIANT ExportMenu
 CHECK_DEADLOCK FALSE
